@@ -133,6 +133,38 @@ def _batch(task):
     d0 = md.compute_distances(t, pairs, opt=True)[:, 0]
     for k in np.where(np.abs(dt - d0) > 1e-6 * (1 + d0))[0][:3]:
         out.append((int(k), "compute_distances_t(t,t) differs from compute_distances"))
+    # ---- time pairs across frames: chain the frame origins so that the displacement from atom 0 at frame k to atom 1 at frame k+1
+    #      is congruent (modulo frame k's lattice, the cell compute_distances_t uses) to case k's own displacement; the time pairs
+    #      (0,1),(1,2),... then have exactly the expectations of cases 0,1,..., each starting in the frame where the previous one ended
+    m = min(n, 600)
+    X2 = np.zeros((m, 2, 3), dtype=np.float64)
+    o = rs.randint(-2, 3, size=3).astype(float)
+    for k in range(m):
+        cellk = np.array(recs[k]["cell"], dtype=float)
+        X2[k, 0] = o
+        if k + 1 < m:
+            # atom 1 of frame k+1 must sit at o + r_k (+ a lattice vector of cell k)
+            X2[k + 1, 1] = o + np.array(recs[k]["r"]) + rs.randint(-2, 3, size=3) @ cellk
+            o = X2[k + 1, 1] + rs.randint(-3, 4, size=3)              # frame k+1's own first atom: anywhere (lattice offset irrelevant)
+    X2[0, 1] = X2[0, 0] + 1.0
+    for fam in ("ortho", "any"):
+        sel = [k for k in range(m - 1) if fam == "any" or not (recs[k]["cell"][1][0] or recs[k]["cell"][2][0] or recs[k]["cell"][2][1])]
+        if fam == "ortho" and not all(not (r["cell"][1][0] or r["cell"][2][0] or r["cell"][2][1]) for r in recs[:m]):
+            continue        # the orthorhombic kernel is only taken when every frame is orthorhombic
+        if not sel:
+            continue
+        tt = md.Trajectory((X2 * G).astype(np.float32), _top(2)); tt.unitcell_vectors = box[:m].astype(np.float32)
+        tpairs = np.array([[k, k + 1] for k in sel])
+        for opt in (True, False):
+            try:
+                dtt = md.compute_distances_t(tt, [[0, 1]], tpairs, opt=opt)[:, 0]
+            except Exception as e:  # noqa
+                out.append((0, "compute_distances_t raised %s" % type(e).__name__)); break
+            for kk, k in enumerate(sel):
+                p = judge(k, dtt[kk], None, "compute_distances_t(chained time pairs, opt=%s)" % opt)
+                if p:
+                    out.append((k, p)); break
+        break
     if heavy:
         for k in range(0, n, max(1, n // 25)):
             i, j, dd = md.find_closest_contact(t, [0], [1], frame=k)
